@@ -130,7 +130,7 @@ PROPS = {
         level_text=LT, level_note=LN, assumptions=[],
     ),
     "C13": dict(
-        imports="Base.Path Tar.Unpack Tar.PubSub", check="C13_pubsub_check", ctype="C13_pubsub_case",
+        imports="Base.Path Tar.Unpack Tar.PubSub Tar.Workers", check="C13_pubsub_check", ctype="C13_pubsub_case",
         show="ptrace pinit (fst c)", n=dict(quick=260, thorough=3000), chunk=500,
         rule="pubsub scripts (wait/emit/cancel over 2 keys with real goroutines, blocked/returned state checked after every step) and bufferPool bounds through the verif shim; "
              "end to end: 6 archives streamed block by block through a controllable reader, modes clean / truncated at block k / read error at block k / caller cancellation at block k / k-th destination call fails, "
@@ -196,8 +196,8 @@ LEVELS = {
     "C12": ("Proved: for every well-formed archive (distinct resolved names, no file above another entry) the unpacking algorithm builds exactly the logical tree -- each entry, each ancestor as a 0700 directory, nothing else -- in every entry order; names normalise to the root, a real-name path, or an escaping path; an entry whose parent escapes stops unpacking and creates nothing. "
             "Checked every run: both models = implementation on generated archives; unpacked tree vs logical tree on four destinations incl. os.FS, sizes across the 150 KiB threshold.",
             "Not modelled: goroutine schedule of the background writers, buffer pools (harness only)."),
-    "C13": ("Proved over the pubsub/Open protocol model: a wait is released by emit or cancel and by nothing else and stays released; a successful Open returns a complete entry; failures close; no opener stays stuck; reader completion precedes cancellation handling. "
-            "Checked every run: scripted pubsub schedules with real goroutines; streamed archives with stalls, truncation, read errors, cancellation and failing destinations with 1..8 openers.",
+    "C13": ("Proved over the pubsub/Open protocol model: a wait is released by emit or cancel and by nothing else and stays released; a successful Open returns a complete entry; failures close; no opener stays stuck; reader completion precedes cancellation handling.  Proved over the model of the reader's end (background writers, one-slot error channel, WaitGroup, final select; every interleaving): the reader returns nil only if no background write failed, it is never blocked for good, every step decreases a measure, hence it always returns (Done fires). "
+            "Checked every run: scripted pubsub schedules with real goroutines; archives of small files of which a chosen subset of background writes fails: Done fires and the reported error is what every interleaving of the model says; streamed archives with stalls, truncation, read errors, cancellation and failing destinations with 1..8 openers.",
             "Go's scheduler and context package are trusted."),
     "C14": ("Proved: when the single failing store call fires inside Mkdir, Remove, Chmod, Chtimes or the Rename of a regular file the operation returns an error (and every record is unchanged for the first four); in every state a reported success of Mkdir/Remove/Chmod, of the Rename of a non-directory, of a non-empty Write/WriteAt and of OpenFile implies the record is (not) in the store; a rejected Set is reported; a failed Get is never mistaken for not-exist; the fault fires at most once; the model has no panic outcome. "
             "Checked every run: every history x every fault index, plain and transaction store: model = implementation; success despite a failed call only if result and store equal the failure-free ones; view = store afterwards.",
